@@ -26,6 +26,7 @@ type kaResult struct {
 	FinTried   bool
 	Leaked     string
 	Panic      string
+	Traces     []string // ka.trace lines, one per endpoint whose keepalive behaviour is fully observable
 }
 
 // deadPeerCase: the transport goes silent at SilenceAt with `Queued` sends issued at that moment.
@@ -103,11 +104,21 @@ func deadPeerCase(t *testing.T, c kaCase, horizon time.Duration) kaResult {
 		}
 	}
 	out.Leaked, out.Panic = res.Leaked, res.Panic
+	for ep := 0; ep < 2; ep++ {
+		if ep == 0 && c.Queued >= int(c.N) {
+			// with a full window a due ping arms the pong timer without emitting anything:
+			// not observable from outside, the oracles above judge these cases
+			continue
+		}
+		if l, ok := kaTrace(res, ep, c.N, c.Ping, c.Pong, false); ok {
+			out.Traces = append(out.Traces, l)
+		}
+	}
 	return out
 }
 
 // healthyIdleCase: nothing but keepalive traffic for `idle`; the peer answers with the given latency.
-func healthyIdleCase(t *testing.T, ping, pong, latency, idle time.Duration) (closed bool, leaked string) {
+func healthyIdleCase(t *testing.T, ping, pong, latency, idle time.Duration) (closed bool, leaked string, traces []string) {
 	sc := &GbnScenario{Name: "healthy-idle", N: 20, Latency: latency, PingNs: int64(ping), PongNs: int64(pong),
 		HsTimeout: 4*latency + time.Second}
 	res := RunGbnBody(t, sc, func(sim *Sim, conns [2]*gbn.GoBackNConn, res *GbnResult) {
@@ -127,13 +138,20 @@ func healthyIdleCase(t *testing.T, ping, pong, latency, idle time.Duration) (clo
 		synctest.Wait()
 		closed = conns[0].VClosed() || conns[1].VClosed()
 	})
-	return closed, res.Leaked + res.Panic
+	for ep := 0; ep < 2; ep++ {
+		// an idle connection without loss: the send loop rests in its select all the time, so
+		// the strict reading applies (every ping at the instant it is due, nothing overdue)
+		if l, ok := kaTrace(res, ep, 20, ping, pong, true); ok {
+			traces = append(traces, l)
+		}
+	}
+	return closed, res.Leaked + res.Panic, traces
 }
 
 // healthyIdleLossCase: as healthyIdleCase, but the relay loses exactly one packet of the keepalive
 // exchange (the k-th data-phase packet travelling in direction dir). The peer is alive and answers
 // the retransmission well inside the pong timeout, so the connection must be kept.
-func healthyIdleLossCase(t *testing.T, ping, pong, latency time.Duration, dir, k int, idle time.Duration) (closed bool, leaked string) {
+func healthyIdleLossCase(t *testing.T, ping, pong, latency time.Duration, dir, k int, idle time.Duration) (closed bool, leaked string, traces []string) {
 	faults := make([]Fault, k+1)
 	faults[k] = Fault{Drop: true}
 	sc := &GbnScenario{Name: fmt.Sprintf("healthy-idle-loss-d%d-k%d", dir, k), N: 20, Latency: latency, PingNs: int64(ping), PongNs: int64(pong),
@@ -156,7 +174,74 @@ func healthyIdleLossCase(t *testing.T, ping, pong, latency time.Duration, dir, k
 		synctest.Wait()
 		closed = conns[0].VClosed() || conns[1].VClosed()
 	})
-	return closed, res.Leaked + res.Panic
+	for ep := 0; ep < 2; ep++ {
+		if l, ok := kaTrace(res, ep, 20, ping, pong, false); ok {
+			traces = append(traces, l)
+		}
+	}
+	return closed, res.Leaked + res.Panic, traces
+}
+
+// kaTrace turns what one endpoint of a finished run did into a line for the keepalive trace
+// validator of the model (LncModel/KaTrace.lean): packets handed to its receive loop (k), pings its
+// send loop emitted (p), a close of its own making (c), end of the observation (e), each with its
+// virtual time in ns. The real connection did what it did, so the implementation's answer is "ok";
+// the model answers "ok" iff the sequence is a run of KA.step.
+func kaTrace(res *GbnResult, ep int, n uint8, ping, pong time.Duration, strict bool) (string, bool) {
+	const maxObs = 3000
+	nextSeq := uint8(0) // a DATA packet with this sequence number is a first transmission, any other a resend
+	var t0 time.Duration = -1
+	var obs []string
+	end := time.Duration(-1)
+	for _, e := range res.Events {
+		if e.Kind == "hs-ret" && e.EP == ep {
+			if e.Err != "" {
+				return "", false
+			}
+			t0 = e.At
+		}
+	}
+	if t0 < 0 {
+		return "", false
+	}
+	for _, e := range res.Events {
+		if e.At < t0 {
+			continue
+		}
+		if e.Kind == "close" { // the harness ends the observation (either endpoint: a FIN follows)
+			end = e.At
+			break
+		}
+		if e.EP != ep {
+			continue
+		}
+		if len(obs) >= maxObs {
+			end = e.At
+			break
+		}
+		switch {
+		case e.Kind == "deliver" && e.By == "recvloop":
+			obs = append(obs, fmt.Sprintf("k%d", int64(e.At)))
+		case e.Kind == "emit" && e.By == "sendloop":
+			if m, err := gbn.Deserialize(e.Pkt); err == nil {
+				if d, ok := m.(*gbn.PacketData); ok && d.Seq == nextSeq {
+					nextSeq = uint8((int(nextSeq) + 1) % (int(n) + 1))
+					if d.IsPing {
+						obs = append(obs, fmt.Sprintf("p%d", int64(e.At)))
+					}
+				}
+			}
+		case e.Kind == "emit" && e.By == "close":
+			// the connection closed itself (nobody has called Close yet and, in these scenario
+			// families, no FIN or garbage has arrived): the keepalive timeout
+			obs = append(obs, fmt.Sprintf("c%d", int64(e.At)))
+			return fmt.Sprintf("ka.trace %s %d %d %d %s", b01(strict), int64(ping), int64(pong), int64(t0), strings.Join(obs, " ")), true
+		}
+	}
+	if end >= 0 {
+		obs = append(obs, fmt.Sprintf("e%d", int64(end)))
+	}
+	return fmt.Sprintf("ka.trace %s %d %d %d %s", b01(strict), int64(ping), int64(pong), int64(t0), strings.Join(obs, " ")), true
 }
 
 // bound on the time from silence to closure: of the order of ping + pong, plus
@@ -278,6 +363,9 @@ func TestC13(t *testing.T) {
 					if len(r.Samples) < 3 {
 						r.Samples = append(r.Samples, map[string]interface{}{"case": c, "detected_after": res.Detected.String()})
 					}
+					for _, l := range res.Traces {
+						r.Emit(l, "ok")
+					}
 					mu.Unlock()
 				}
 			})
@@ -316,7 +404,10 @@ func TestC13(t *testing.T) {
 	for _, pp := range [][2]time.Duration{{5 * time.Second, 3 * time.Second}, {7 * time.Second, 3 * time.Second}} {
 		for dir := 0; dir < 2; dir++ {
 			for k := 0; k < pick(4, 10); k++ {
-				closed, bad := healthyIdleLossCase(t, pp[0], pp[1], 50*time.Millisecond, dir, k, 3*time.Minute)
+				closed, bad, traces := healthyIdleLossCase(t, pp[0], pp[1], 50*time.Millisecond, dir, k, 3*time.Minute)
+				for _, l := range traces {
+					r.Emit(l, "ok")
+				}
 				r.Case(fmt.Sprintf("idle-loss:%v:%d:%d", pp, dir, k), true, "healthy-idle-one-loss")
 				if closed {
 					r.Violate("C13/live-peer-closed", fmt.Sprintf("idle connection (ping %v, pong %v, latency 50 ms, resend timeout 1 s): the %d-th keepalive packet travelling in direction %d was lost once; the live peer answered the retransmission, yet the connection was closed",
@@ -357,8 +448,11 @@ func TestC13(t *testing.T) {
 					if c.pp[0] < time.Second {
 						dur = dur / 10 // same number of keepalive rounds, fewer simulated events
 					}
-					closed, bad := healthyIdleCase(t, c.pp[0], c.pp[1], c.lat, dur)
+					closed, bad, traces := healthyIdleCase(t, c.pp[0], c.pp[1], c.lat, dur)
 					mu.Lock()
+					for _, l := range traces {
+						r.Emit(l, "ok")
+					}
 					r.Case(fmt.Sprintf("idle:%v:%v", c.pp, c.lat), true, fmt.Sprintf("healthy-idle/%v-%v", c.pp[0], c.pp[1]))
 					if closed {
 						r.Violate("C13/live-peer-closed", fmt.Sprintf("idle connection with one-way latency %v (ping %v, pong %v) was closed within %v",
